@@ -94,6 +94,16 @@ type stub struct{ frags []int }
 func (s *stub) Payload(mtu uint16, payload []byte) [][]byte {
 	var out [][]byte
 	for i, pm := range s.frags {
+		if pm <= 0 {
+			// a fragment without bytes: 0 = empty, -1 = nil (a packet with an empty payload is a legal RTP packet)
+			if pm < 0 {
+				out = append(out, nil)
+			} else {
+				out = append(out, []byte{})
+			}
+
+			continue
+		}
 		l := int(mtu) * pm / 1000
 		if l < 1 {
 			l = 1
@@ -470,7 +480,7 @@ func genPktzCase(t *rapid.T) *PktzCase {
 			if c.Payloader == "stub" {
 				nf := rapid.IntRange(0, 6).Draw(t, "nfrags")
 				for k := 0; k < nf; k++ {
-					op.StubFrags = append(op.StubFrags, rapid.SampledFrom([]int{1000, 1000, 999, 500, 1, 10, 750}).Draw(t, "frag"))
+					op.StubFrags = append(op.StubFrags, rapid.SampledFrom([]int{1000, 1000, 999, 500, 1, 10, 750, 0, -1}).Draw(t, "frag"))
 				}
 			}
 		}
@@ -483,7 +493,7 @@ func genPktzCase(t *rapid.T) *PktzCase {
 	return c
 }
 
-const ruleC06 = "rapid draws a packetizer configuration (MTU 64-65535 biased to 64,65,100,267,1200,1500; PT; SSRC; fixed sequencer with start biased to 65530-65535/0, random sequencer, or a Sequencer implemented by the harness (every number it hands out must appear on a packet); abs-send-time off or id 1-255 (one-byte form up to 14, two-byte form above; one operation in twelve calls EnableAbsSendTime again with another id or 0) with an injected clock (instants uniform in 1970-2036 or a small step after the previous call's, in the default or a fixed-offset zone; one case in eight injects no clock and brackets the value between the instants read right before and after the call); payloader in {G711,G722,Opus,VP8+-pid,VP9 flexible/non-flexible,H264+-STAP-A,H265+-DONL,AV1, scripted stub}) and 1-10 operations Packetize(non-empty payload, samples)/Packetize(nil or empty payload: no packets, no trace)/SkipSamples/GeneratePadding(0-5, rarely 65535-65537); one op in six is 'steered': its sample count is computed at run time from the learned first timestamp so that the next timestamp is exactly 0xFFFFFFFF, 0 or 1. Oracle: spy on the payloader (fragments unchanged and in order), sequence/timestamp model (learned first values), fixed fields, marker, abs-send-time = exact 6.18 value of the injected instant, MarshalSize<=MTU, marshal/parse equality, padding packets valid padding-only RTP; every packet returned earlier still serialises to the same bytes after all later calls. Non-trivial = >=2 productive Packetize calls, one with >=2 packets, with a Skip/Padding before one of them; distinct = FNV-64 of the JSON case"
+const ruleC06 = "rapid draws a packetizer configuration (MTU 64-65535 biased to 64,65,100,267,1200,1500; PT; SSRC; fixed sequencer with start biased to 65530-65535/0, random sequencer, or a Sequencer implemented by the harness (every number it hands out must appear on a packet); abs-send-time off or id 1-255 (one-byte form up to 14, two-byte form above; one operation in twelve calls EnableAbsSendTime again with another id or 0) with an injected clock (instants uniform in 1970-2036 or a small step after the previous call's, in the default or a fixed-offset zone; one case in eight injects no clock and brackets the value between the instants read right before and after the call); payloader in {G711,G722,Opus,VP8+-pid,VP9 flexible/non-flexible,H264+-STAP-A,H265+-DONL,AV1, scripted stub whose fragments may also be empty or nil}) and 1-10 operations Packetize(non-empty payload, samples)/Packetize(nil or empty payload: no packets, no trace)/SkipSamples/GeneratePadding(0-5, rarely 65535-65537); one op in six is 'steered': its sample count is computed at run time from the learned first timestamp so that the next timestamp is exactly 0xFFFFFFFF, 0 or 1. Oracle: spy on the payloader (fragments unchanged and in order), sequence/timestamp model (learned first values), fixed fields, marker, abs-send-time = exact 6.18 value of the injected instant, MarshalSize<=MTU, marshal/parse equality, padding packets valid padding-only RTP; every packet returned earlier still serialises to the same bytes after all later calls. Non-trivial = >=2 productive Packetize calls, one with >=2 packets, with a Skip/Padding before one of them; distinct = FNV-64 of the JSON case"
 
 func TestC06(t *testing.T) {
 	r := begin(t, "C06", "exploration", ruleC06)
